@@ -66,20 +66,20 @@ type bsRec struct {
 	Loads    int   // loader invocations made by this call
 	Panicked bool
 	// white-box bookkeeping taken at the end of the map phase (the call's linearization point)
-	Entry    *Entry[int, int] // entry the call stored into / removed (nil if none)
-	Created  bool             // the call created a new incarnation (entry object newly put into the map)
-	Removed  bool             // a delete that found and removed an entry
-	PrevV    int              // value the entry held before an in-place update / the value a delete removed
-	ProbeOK  bool             // read-back through the real read path right after the map phase
-	ProbeV   int
-	Probed   bool
-	NotesAt  int   // listener calls seen when the call started
-	Deadline int64 // entry deadline (cache nanos) right after the map phase
-	LoadCost int64 // cost the loader returned for a loading get that stored its value
-	PrevDL   int64 // deadline of the entry just before the call (0 none / no entry)
-	Stored   bool  // a loading get whose loaded value was put into the map (new entry or in place)
-	Visited  [][2]int // range: (key,value) pairs visited
-	CachedNow int64   // the store's cached clock when the call started
+	Entry     *Entry[int, int] // entry the call stored into / removed (nil if none)
+	Created   bool             // the call created a new incarnation (entry object newly put into the map)
+	Removed   bool             // a delete that found and removed an entry
+	PrevV     int              // value the entry held before an in-place update / the value a delete removed
+	ProbeOK   bool             // read-back through the real read path right after the map phase
+	ProbeV    int
+	Probed    bool
+	NotesAt   int      // listener calls seen when the call started
+	Deadline  int64    // entry deadline (cache nanos) right after the map phase
+	LoadCost  int64    // cost the loader returned for a loading get that stored its value
+	PrevDL    int64    // deadline of the entry just before the call (0 none / no entry)
+	Stored    bool     // a loading get whose loaded value was put into the map (new entry or in place)
+	Visited   [][2]int // range: (key,value) pairs visited
+	CachedNow int64    // the store's cached clock when the call started
 }
 
 type bsCfg struct {
@@ -101,7 +101,7 @@ type bsCfg struct {
 	MaxAdv     int     // max number of A actions on a path
 	Depth      int
 	CostFn     func(int) int64
-	Probe      bool // read every Set back through getFromShard at the end of its map phase
+	Probe      bool    // read every Set back through getFromShard at the end of its map phase
 	DlAdvs     []int64 // D<delta> actions: advance the clock to (deadline of key 1's entry) + delta, no tick
 }
 
